@@ -62,6 +62,7 @@ func vhRefKeysetId(amounts []uint64, keys []*secp256k1.PublicKey) string {
 func VHarnessKeysetId()  { vhKeysetId(1, 3) }
 func VHarnessKeysetId4() { vhKeysetId(4, 4) }
 func VHarnessKeysetId5() { vhKeysetId(5, 5) }
+func VHarnessKeysetId6() { vhKeysetId(6, 6) }
 
 func vhKeysetId(lo, hi int) {
 	n := v.Int("nKeys", lo, hi)
